@@ -161,6 +161,7 @@ effect) -/
 def interrupt (s : St) (i : Pid) : St :=
   match s.pc i with
   | .hold => setPC s i (.isdir .die)
+  | .isdir .fin => setPC s i (.isdir .die)     -- `giveLocks` is about to start on the lock: the handler's pass takes over
   | .mkdir _ => setPC s i .killed
   | _ => s
 
